@@ -727,7 +727,7 @@ def merge_measure_contents(notes, other, measure_start, measure_end=None):
             pos = elements[-1][0] + (elements[-1][1] or 0)
             reach = max(reach, max(t + (dur or 0) for t, dur, _ in elements))
 
-    if measure_end is not None and reach < measure_end and reach > measure_start:
+    if measure_end is not None and reach < measure_end:
         # the content stops before the end of the measure: move on to the
         # end, otherwise a reader takes the measure to be shorter
         if pos < reach:
